@@ -5,6 +5,8 @@ import Abyss.Props.RaBufP
 import Abyss.Props.RaBufMap
 import Abyss.Props.C03Rb
 import Abyss.Props.C03Gen
+import Abyss.Lemmas.FlushGenL
+#print axioms Abyss.Buf.dbApplyAll_eq_dbSync
 #print axioms Abyss.RaBuf.C16_generated_flush
 #print axioms Abyss.C16_recovered_image_rb
 #print axioms Abyss.RaBuf.C16_map_faults
